@@ -6,6 +6,7 @@ PROP = dict(
     level_text='Seeded exploration of operation histories (<= 18 ops quick, <= 30 thorough) on one XalanTransformer: compile, parse, transform in several source/stylesheet/target forms with at most one abort cause, set/clear params, install/uninstall external function, output options, trace listeners, destroy handles. Oracle per transformation: status, bytes delivered to the sink (also the prefix of aborted ones) and presence of an error message equal those of a freshly created transformer given the recorded sticky settings and the same bytes and fault.',
     level_note='The reference model is the library itself on a fresh object (differential), so a defect that shows identically on fresh and reused transformers is invisible here. Allocation failure is deliberately not injected (C19 only promises a new transformer works after it). Xerces-C/ICU uninstrumented.',
     design_ref='DESIGN.md section 7 (C06), 3.1 (address reuse), 5',
+    run_timeout=150,
     runs=dict(quick=2500, thorough=40000),
     nontrivial_counter=['transforms'],
     rule='One evaluation = one history. distinct_nontrivial = number of distinct trace hashes among histories with at least one transformation (hash over every op outcome and both output hashes of every compared pair).',
